@@ -59,7 +59,7 @@ GrantsFor(m, c) == IF TypeOf(m) = "-" THEN NoGrant ELSE <<[Grant(TypeOf(m), "", 
 Setup(signer, wdS, grants, value) ==
     [signer |-> signer, wd |-> [S |-> wdS], grants |-> grants, delegS |-> "1000000000000000000000",
      delegT |-> "1000000000000000000000", ubdS |-> "5000000", fundC |-> "5000000000000000000", warm |-> 3,
-     delegC |-> "0", denom2 |-> FALSE, acl |-> FALSE, priorLog |-> FALSE]
+     delegC |-> "0", denom2 |-> FALSE, acl |-> FALSE, priorLog |-> FALSE, fresh |-> FALSE]
 SetupC(wdS, grants, d2) == [Setup("a1", wdS, grants, Z) EXCEPT !.delegC = "700000000000000000000", !.denom2 = d2]
 
 \* the same as an EIP-2930 transaction whose access list makes every callee warm (no access-list entry is
@@ -118,6 +118,19 @@ C02Create ==
     UNION {{[setup |-> Setup("a1", w, NoGrant, Z), top |-> Create(0, v, <<Pc(1, "catch", m, "S", Amt), Store(2)>>)] :
               w \in {"self", "W"}, v \in {Z, "600"}} : m \in {"delegate", "withdrawRewards", "setWithdrawAddress", "query"}}
 
+\* rewards paid to an address that has no account yet, which the contract probes before and pays after
+C02Fresh ==
+    {[setup |-> [Setup("a1", "self", NoGrant, Z) EXCEPT !.wd = [S |-> "F"], !.fresh = TRUE], top |-> t] : t \in {
+        CallC(0, "catch", "900", <<Send(1, "F", Z), Pc(2, "catch", "withdrawRewards", "S", Amt), Send(3, "F", "50"), Store(4)>>),
+        CallC(0, "catch", "900", <<Pc(2, "catch", "withdrawRewards", "S", Amt), Send(3, "F", "50"), Store(4)>>),
+        CallC(0, "catch", Z, <<Send(1, "F", Z), Pc(2, "catch", "claimRewards", "S", Amt), Send(3, "F", "50")>>),
+        CallC(0, "catch", Z, <<Send(1, "F", "70"), Pc(2, "catch", "withdrawRewards", "S", Amt), Send(3, "F", "50")>>),
+        CallC(0, "catch", Z, <<CallC(5, "catch", Z, <<Send(1, "F", Z), Rev(6)>>), Pc(2, "catch", "withdrawRewards", "S", Amt), Send(3, "F", "50")>>) }}
+\* a third party whose rewards are paid to the calling contract: still a third party
+C04WdContract ==
+    {[setup |-> [Setup("a1", "self", g, Z) EXCEPT !.wd = [S |-> "self", T |-> "C0"]],
+      top |-> CallC(0, "catch", Z, <<Pc(1, "catch", m, who, Amt), Store(2)>>)] :
+        m \in {"withdrawRewards", "claimRewards", "setWithdrawAddress"}, who \in {"T", "S"}, g \in {NoGrant}}
 \* ----- C05: exactly one frame reverts ---------------------------------------------------
 RevMethods == {"delegate", "undelegate", "withdrawRewards", "claimRewards", "setWithdrawAddress", "approve", "redelegate", "ibcTransfer", "ibcApprove"}
 PcM(id, mode, m) == IF m \in {"approve", "ibcApprove"} THEN PcG(id, mode, m, "C0", "4000000") ELSE Pc(id, mode, m, "S", Amt)
@@ -206,6 +219,17 @@ C04Sequences ==
          a \in AllowOps, b \in AllowOps, c \in AllowOps,
          g \in {NoGrant, <<Grant("delegate", "2000000", FALSE, 0)>>, <<Grant("delegate", "2000000", FALSE, 0), Grant("ibc", "1500000", FALSE, 0)>>}}
 
+\* allowance changes over both message types when the two grants differ in kind (unlimited / limited / absent)
+MixOps == {<<"decreaseAllowance", "1000000">>, <<"increaseAllowance", "1000000">>, <<"revoke", Z>>, <<"approve", "3000000">>,
+           <<"undelegate", "1500000">>, <<"undelegate", Amt>>, <<"delegate", "2500000">>}
+C04Mixed ==
+    {[setup |-> Setup("a1", "self", g, Z),
+      top |-> CallC(0, "catch", Z, <<AllowOp(1, a), AllowOp(2, b), AllowOp(3, c), Store(4)>>)] :
+         a \in MixOps, b \in MixOps, c \in MixOps,
+         g \in {<<Grant("delegate", "", FALSE, 0), Grant("undelegate", "2000000", FALSE, 0)>>,
+                <<Grant("delegate", "2000000", FALSE, 0), Grant("undelegate", "", FALSE, 0)>>,
+                <<Grant("delegate", "2000000", FALSE, 0), Grant("undelegate", "2000000", FALSE, 0)>>}}
+
 \* an allowance granted (or increased) inside a frame that is then reverted must not be spendable
 C04Reverted ==
     {[setup |-> Setup("a1", "self", NoGrant, Z),
@@ -227,9 +251,9 @@ C04Ibc ==
 
 Scenarios == CASE Family = "C02" -> C02Direct \cup C02ViaContract \cup C02Dirty \cup C02Nested \cup C02Forward \cup C02Plain \cup C02Own \cup C02Create
                                     \cup C02PcValue \cup C05Destroy \cup Warm(C02Plain \cup C02PcValue \cup C02Forward)
-                                    \cup {x \in C05NestedCreate \cup Warm(C05NestedCreate) : ~HasPcOp(x.top)}
+                                    \cup {x \in C05NestedCreate \cup Warm(C05NestedCreate) : ~HasPcOp(x.top)} \cup C02Fresh
                [] Family = "C05" -> C05All
-               [] Family = "C04" -> C04Matrix \cup C04Sequences \cup C04Reverted \cup C04Ibc
+               [] Family = "C04" -> C04Matrix \cup C04Sequences \cup C04Reverted \cup C04Ibc \cup C04WdContract \cup C04Mixed
                [] Family = "C04small" -> C04Matrix \cup C04Reverted
 
 ---------------------------------------------------------------------------
@@ -244,7 +268,7 @@ Slots(self, body) == IF body = <<>> THEN {} ELSE SlotsOp(self, body[1]) \cup Slo
 
 AbstractPre(x) ==
     LET cs == ContractsOp(x.top)
-        as == {"S", "T", "W"} \cup cs
+        as == {"S", "T", "W"} \cup cs \cup (IF x.setup.fresh THEN {"F"} ELSE {})
         vs == {"V1", "V2", "V3"}
         sl == IF HasBody(x.top) THEN Slots("S", <<x.top>>) ELSE {}
         own(a, v) == a = "C0" /\ v = "V1" /\ x.setup.delegC # "0"
@@ -264,13 +288,14 @@ AbstractPre(x) ==
                             IF t = "ibc" THEN <<IF h.val = 0 THEN "channel-0" ELSE "channel-" \o ToString(5 + h.val)>>
                                               \o (IF h.alloc2 = "" THEN <<>> ELSE <<"channel-1">>)
                             ELSE <<ValName(h.val)>>
-    IN [ bank |-> [a \in as |-> IF a \in cs THEN "5000000000" ELSE "900000000000"],
+    IN [ bank |-> [a \in as |-> IF a = "F" THEN "0" ELSE IF a \in cs THEN "5000000000" ELSE "900000000000"],
          mods |-> [m \in {"bonded", "notbonded", "distr", "feecollector", "evm", "escrow"} |-> "70000000000"],
          supply |-> "100000000000000",
          deleg |-> [a \in as |-> [v \in vs |-> IF (a \in {"S", "T"} /\ v = "V1") \/ own(a, v) THEN "50000000" ELSE Z]],
          ubd |-> [a \in as |-> [v \in vs |-> IF a = "S" /\ v = "V1" THEN "5000000" ELSE Z]],
          rewards |-> [a \in as |-> [v \in vs |-> IF (a \in {"S", "T"} /\ v = "V1") \/ own(a, v) THEN "7777" ELSE Z]],
-         wd |-> [a \in as |-> IF a = "S" /\ x.setup.wd["S"] = "W" THEN "W" ELSE a],
+         wd |-> [a \in as |-> IF a \in DOMAIN x.setup.wd /\ x.setup.wd[a] # "self" THEN x.setup.wd[a] ELSE a],
+         exists |-> [a \in as |-> a # "F"],
          grants |-> [g \in as |-> [e \in as \ {g} |-> [t \in StakeTypes |-> gr(g, e, t)]]],
          grantVals |-> [g \in as |-> [e \in as \ {g} |-> [t \in StakeTypes |-> gv(g, e, t)]]],
          grantExp |-> [g \in as |-> [e \in as \ {g} |-> [t \in StakeTypes |-> "-"]]],
@@ -299,8 +324,8 @@ Next == /\ sc = None
              /\ PrintT(<<"SCRIPT", ToJson(x)>>)
 Spec == Init /\ [][Next]_vars
 
-ModelDiff(x) == LET e == ModelRun(x) IN DiffFields([f \in DOMAIN e.post \ {"grantVals", "grantExp"} |-> e.post[f]],
-                                                    [f \in DOMAIN e.post \ {"grantVals", "grantExp"} |-> Ideal(e).st[f]])
+ModelDiff(x) == LET e == ModelRun(x) IN DiffFields([f \in DOMAIN e.post \ {"grantVals", "grantExp", "exists"} |-> e.post[f]],
+                                                    [f \in DOMAIN e.post \ {"grantVals", "grantExp", "exists"} |-> Ideal(e).st[f]])
 \* the model satisfies P in every scenario (holds for the intended design, Defects = {})
 Strict == sc = None \/ ModelDiff(sc.x) = {}
 \* with the known defects, P can fail only where a precompile call is involved
